@@ -760,10 +760,10 @@ func (e *Exec) applyContract(s *State, con *Contract, args []Val, setRes func(*S
 		menv.vars[k] = v
 	}
 	ms := e.resolveModifies(con.Modifies, con.ModAll, menv)
-	e.havocModSet(s, pre, ms)
 	if !con.NoAlloc && !ms.all {
 		e.allocGrow(s)
 	}
+	e.havocModSet(s, pre, ms)
 	res := e.symbolicResult(s, resultType(con.Sig), "r_"+sanitize(con.TFn.Name()))
 	setRes(s, res)
 	penv := e.contractEnv(con, s, pre, args)
@@ -811,10 +811,10 @@ func (e *Exec) applyCallback(s *State, cb *CallbackSpec, sig *types.Signature, a
 		s.assume("%s", g)
 	}
 	ms := e.resolveModifies(cb.Modifies, cb.ModAll, mk(pre, pre))
-	e.havocModSet(s, pre, ms)
 	if !ms.all {
 		e.allocGrow(s)
 	}
+	e.havocModSet(s, pre, ms)
 	res := e.symbolicResult(s, resultType(sig), "cb_"+cb.Param)
 	setRes(s, res)
 	penv := mk(s, pre)
